@@ -46,7 +46,7 @@ def confirm(src: Path, n: str, name: str) -> int:
     # some demonstrations hard-code the sub-agent's own worktree path: run a copy in which that path
     # names the confirmation worktree
     agent_wt = None
-    m = re.search(r'/tmp/wt[23]?/C\d\d', demo.read_text())
+    m = re.search(r'/tmp/wt[23]?/C\d\d', demo.read_text() + ''.join(f.read_text() for f in src.glob('*.py')))
     if m:
         agent_wt = m.group(0)
         work = wt.parent / 'demo'
